@@ -42,22 +42,27 @@ Qed.
 
 (* Dial; Send(ms1); Reset; Send(ms2); Close — for all scripts, capability sets, configurations, batches, renderers:
    the dialogue is legal and in step, and the commit log is exactly the acknowledged messages of both batches *)
-Theorem run_reset_spec : forall caps caps_tls script ms1 ms2,
-  let o := run_reset std_expects F cfg caps caps_tls script ms1 ms2 render in
+Theorem run_two_sends_spec : forall do_reset caps caps_tls script ms1 ms2,
+  let o := run_two_sends do_reset std_expects F cfg caps caps_tls script ms1 ms2 render in
   all_legal (p_world o) = true /\ all_attributed (p_world o) = true /\
   w_commits (p_world o) = batch_commits render ms1 (p_results1 o) ++ batch_commits render ms2 (p_results2 o) /\
   (if attempted (p_ret1 o) then Forall2 (msg_post render) ms1 (p_results1 o) else p_results1 o = untouched ms1) /\
   (if attempted (p_ret2 o) then Forall2 (msg_post render) ms2 (p_results2 o) else p_results2 o = untouched ms2).
 Proof.
-  intros caps caps_tls script ms1 ms2. unfold run_reset, dial_send_reset_send.
+  intros do_reset caps caps_tls script ms1 ms2. unfold run_two_sends, dial_send_reset_send.
   destruct (dial std_expects F cfg (world_init caps caps_tls script)) as [w1 oc] eqn:Hd.
   destruct (dial_world_ok F HF cfg _ _ _ _ _ Hd) as [[HL HA] HC].
   destruct oc as [c|].
   - destruct (dial_spec F HF cfg _ _ _ _ _ Hd) as [Hinv _].
     destruct (send_batch std_expects F cfg render ms1 (c, w1)) as [st2 [r1 rs1]] eqn:H1.
     destruct (send_batch_inv _ _ _ _ _ Hinv H1) as (Hinv2 & HW2 & HP2).
-    destruct (reset_with std_expects cfg st2) as [st3 re] eqn:H2.
-    destruct (reset_with_inv _ _ _ Hinv2 H2) as (Hinv3 & HW3).
+    assert (H2' : exists st3 re, (if do_reset then reset_with std_expects cfg st2 else (st2, None)) = (st3, re) /\
+                                  Inv st3 /\ w_commits (snd st3) = w_commits (snd st2)).
+    { destruct do_reset.
+      - destruct (reset_with std_expects cfg st2) as [st3 re] eqn:H2. exists st3, re.
+        destruct (reset_with_inv _ _ _ Hinv2 H2) as (Hinv3 & HW3). auto.
+      - exists st2, None. auto. }
+    destruct H2' as (st3 & re & H2 & Hinv3 & HW3). rewrite H2.
     destruct (send_batch std_expects F cfg render ms2 st3) as [st4 [r2 rs2]] eqn:H3.
     destruct (send_batch_inv _ _ _ _ _ Hinv3 H3) as (Hinv4 & HW4 & HP4).
     destruct (close_with std_expects st4) as [st5 closed] eqn:H4.
@@ -68,4 +73,21 @@ Proof.
     split; assumption.
   - cbn. split; [exact HL|]. split; [exact HA|]. rewrite !untouched_commits. split; [exact HC|]. split; reflexivity.
 Qed.
+Theorem run_reset_spec : forall caps caps_tls script ms1 ms2,
+  let o := run_reset std_expects F cfg caps caps_tls script ms1 ms2 render in
+  all_legal (p_world o) = true /\ all_attributed (p_world o) = true /\
+  w_commits (p_world o) = batch_commits render ms1 (p_results1 o) ++ batch_commits render ms2 (p_results2 o) /\
+  (if attempted (p_ret1 o) then Forall2 (msg_post render) ms1 (p_results1 o) else p_results1 o = untouched ms1) /\
+  (if attempted (p_ret2 o) then Forall2 (msg_post render) ms2 (p_results2 o) else p_results2 o = untouched ms2).
+Proof. exact (run_two_sends_spec true). Qed.
+
+(* two Send calls racing for one dialled Client, as serialised by sendMutex: the commit log consists of complete
+   messages only, whichever call comes first (the roles of ms1 and ms2 are symmetric) *)
+Theorem run_serialised_spec : forall caps caps_tls script ms1 ms2,
+  let o := run_serialised std_expects F cfg caps caps_tls script ms1 ms2 render in
+  all_legal (p_world o) = true /\ all_attributed (p_world o) = true /\
+  w_commits (p_world o) = batch_commits render ms1 (p_results1 o) ++ batch_commits render ms2 (p_results2 o) /\
+  (if attempted (p_ret1 o) then Forall2 (msg_post render) ms1 (p_results1 o) else p_results1 o = untouched ms1) /\
+  (if attempted (p_ret2 o) then Forall2 (msg_post render) ms2 (p_results2 o) else p_results2 o = untouched ms2).
+Proof. exact (run_two_sends_spec false). Qed.
 End Programs.
